@@ -368,7 +368,14 @@ func dispatchSign(ctx context.Context, submitterc chan []byte, signc chan *vss.S
 		case <-ctx.Done():
 			close(out)
 			return
-		case sign := <-signc:
+		case sign, ok := <-signc:
+			if !ok || sign == nil {
+				// genSign closed its output without a share: this node could not compute
+				// the content (fetch or selector error). Without an own share there is
+				// nothing to compare the peers' shares with: do not collect them.
+				close(out)
+				return
+			}
 			select {
 			case <-ctx.Done():
 				close(out)
